@@ -681,12 +681,19 @@ def value_use(name):
         """Sets the value"""
         if not isinstance(value, Value):
             raise TypeError(f"Expecting a Value instance, but got {value}")
-        # If value was already set, remove usage
-        if name in self._var_map:
-            self.del_use(self._var_map[name])
+        old = self._var_map.get(name)
 
         # Place the value in the var map:
         self._var_map[name] = value
+
+        # If value was already set, remove usage (unless another operand
+        # of this instruction still refers to the same value):
+        if (
+            old is not None
+            and old is not value
+            and not any(v is old for v in self._var_map.values())
+        ):
+            self.del_use(old)
 
         # Add usage:
         self.add_use(value)
@@ -736,11 +743,13 @@ class Instruction:
         """
         # TODO: update reference
         # assert old in self._var_map.values()
+        # Note that one value may be used by several operands.
         for name in self._var_map:
             if self._var_map[name] is old:
-                self.del_use(old)
                 self._var_map[name] = new
                 self.add_use(new)
+        if old in self.uses:
+            self.del_use(old)
 
     def remove_from_block(self):
         for use in list(self.uses):
@@ -882,11 +891,12 @@ class FunctionCall(LocalValue):
 
     def replace_use(self, old, new):
         super().replace_use(old, new)
-        if old in self.arguments:
-            idx = self.arguments.index(old)
+        for idx, arg in enumerate(self.arguments):
+            if arg is old:
+                self.arguments[idx] = new
+                self.add_use(new)
+        if old in self.uses:
             self.del_use(old)
-            self.arguments[idx] = new
-            self.add_use(new)
 
     def __str__(self):
         args = ", ".join(arg.name for arg in self.arguments)
@@ -913,11 +923,12 @@ class ProcedureCall(Instruction):
 
     def replace_use(self, old, new):
         super().replace_use(old, new)
-        if old in self.arguments:
-            idx = self.arguments.index(old)
+        for idx, arg in enumerate(self.arguments):
+            if arg is old:
+                self.arguments[idx] = new
+                self.add_use(new)
+        if old in self.uses:
             self.del_use(old)
-            self.arguments[idx] = new
-            self.add_use(new)
 
     def __str__(self):
         args = ", ".join(arg.name for arg in self.arguments)
@@ -1019,10 +1030,10 @@ class Phi(LocalValue):
         """Replace old value reference by new value reference"""
         assert old in self.inputs.values()
         for inp in self.inputs:
-            if self.inputs[inp] == old:
-                self.del_use(old)
+            if self.inputs[inp] is old:
                 self.inputs[inp] = new
                 self.add_use(new)
+        self.del_use(old)
 
     def set_incoming(self, block, value):
         """Set the value for the phi node when entering through block"""
@@ -1207,11 +1218,12 @@ class InlineAsm(Instruction):
 
     def replace_use(self, old, new):
         super().replace_use(old, new)
-        if old in self.input_values:
-            idx = self.input_values.index(old)
+        for idx, arg in enumerate(self.input_values):
+            if arg is old:
+                self.input_values[idx] = new
+                self.add_use(new)
+        if old in self.uses:
             self.del_use(old)
-            self.input_values[idx] = new
-            self.add_use(new)
 
     def __str__(self):
         return f"asm ({self.template})"
